@@ -5,6 +5,7 @@ expectation constructed independently (old bytes with each planted span replaced
 announced version through that occurrence's pattern); `bumpver show` must then report the announced version.
 """
 import random
+import re
 
 from bvmon import harness, projects, updates
 
@@ -21,7 +22,7 @@ SPEC = dict(
         "initial {pep440_version} text is what bumpver itself renders for the current version (setup only)",
         "one case in eight is a legacy {..} layout (decorated {version} patterns, own and shared lines, LF/CRLF/CR)",
     ],
-    required=["update_ok", "show_ok", "aliased_path_entry_updates", "updates_with_end_anchored_patterns", "shared_line_updates", "updates_with_a_pattern_on_several_lines",
+    required=["update_ok", "show_ok", "set_version_in_noncanonical_spelling", "aliased_path_entry_updates", "updates_with_end_anchored_patterns", "shared_line_updates", "updates_with_a_pattern_on_several_lines",
               "legacy_updates_ok", "legacy_shared_line_updates"],
     anchors=[("parse", "iter_matches"), ("v2rewrite", "rewrite_lines"), ("v2patterns", "normalize_pattern"),
              ("config", "_parse_raw_config")],
@@ -67,6 +68,27 @@ def run_legacy(ctx, case, R, mods):
         harness.rm_dir(d)
 
 
+def noncanonical_numeric(R, vp, text):
+    """`text` with a leading zero in front of one MAJOR/MINOR/PATCH/INC0 number (their recogniser is [0-9]+), or None"""
+    from bvmon import ref
+    ast = ref.parse_pattern(vp)
+    raw = ref.parse(ast, text)
+    if not raw:
+        return None
+    cands = [t for n, t in raw if n in ("MAJOR", "MINOR", "PATCH", "INC0")]
+    R.shuffle(cands)
+    for t in cands:
+        hits = [m for m in re.finditer(r"(?<![0-9])" + re.escape(t) + r"(?![0-9])", text)]
+        if len(hits) != 1:
+            continue
+        new = text[:hits[0].start()] + "0" + text[hits[0].start():]
+        raw2 = ref.parse(ast, new)
+        if raw2 and ref.n_full_parses(ast, new) == 1 and [(n, x.lstrip("0") or "0") for n, x in raw2] == \
+                [(n, x.lstrip("0") or "0") if n in ("MAJOR", "MINOR", "PATCH", "INC0") else (n, x) for n, x in raw]:
+            return new
+    return None
+
+
 def run_case(ctx, case):
     R = random.Random(case["pseed"])
     mods = updates.bvmods()
@@ -79,9 +101,17 @@ def run_case(ctx, case):
     fl, date, exp, why = updates.plan_update(R, proj.vp, proj.cur_text, proj.cur_state, tdy)
     if exp is None:
         raise harness.Skip("no-successful-update-planned:" + why)
+    args = updates.update_args(fl, date)
+    if R.random() < 0.12:
+        # the same target given as --set-version in a spelling the pattern accepts but would not render itself
+        # (a leading zero in a MAJOR/MINOR/PATCH/INC0 number): what is announced is what has to be written
+        setv = noncanonical_numeric(R, proj.vp, exp)
+        if setv:
+            args = ["update", "--no-fetch", "--set-version", setv]
+            ctx.count("set_version_in_noncanonical_spelling")
     d = harness.new_project(proj.encoded())
     try:
-        res = harness.invoke(updates.update_args(fl, date), cwd=d)
+        res = harness.invoke(args, cwd=d)
         after = harness.snapshot(d)
         desc = {"project": proj.describe(), "argv": res.args}
         if res.exit_code != 0:
@@ -101,6 +131,10 @@ def run_case(ctx, case):
             ctx.violation("other:announced_version_unreadable", f"announced {a!r} for {proj.vp!r}", observed=desc)
             return
         problems = projects.check_after(proj, after, new_state, a)
+        cfg_line = [ln for ln in after[proj.cfg_name].decode("utf-8").splitlines() if ln.startswith("current_version")]
+        if not cfg_line or a not in cfg_line[0]:
+            ctx.violation("other:config_current_version_differs_from_announced_version",
+                          f"{res.args}: announced {a!r}, config line {cfg_line[:1]}", observed=desc)
         m = proj.meta
         ntk = (m["n_files"], tuple(sorted(len(v) for v in proj.file_patterns.values())), m["shared_lines"] > 0,
                tuple(m["eols"]), tuple(m["kinds"]), m["fmt"], m["globs"] > 0)
